@@ -1,9 +1,12 @@
 (* Props/C13.v -- property C13: outcomes are a function of the election alone.
-   Only statements closed by [exact]; proofs in Proofs/InvarianceP.v (sequential Phragmen) and
-   Proofs/InvarianceGreedyP.v (greedy).  Python's set iteration (hash seed, insertion order) is the explicit
+   Only statements closed by [exact]; proofs in Proofs/InvarianceP.v (sequential Phragmen),
+   Proofs/InvarianceGreedyP.v (greedy), Proofs/InvarianceKnapsackP.v (welfare maximiser),
+   Proofs/InvarianceMesP.v and Proofs/InvarianceMesScaleP.v (Equal Shares).  Python's set iteration (hash seed, insertion order) is the explicit
    enumeration [enum]/[e1]/[e2]; voters are the entries of the profile in the order the profile object
    enumerates them; "scaled by k" = every cost and the budget multiplied by k > 0. *)
-From PB Require Import Model.Phragmen Model.GreedyRule Oracle.C13 Proofs.InvarianceP Proofs.InvarianceGreedyP.
+From PB Require Import Model.Phragmen Model.GreedyRule Model.MaxWelfare Model.MesRule Oracle.C13
+  Proofs.InvarianceP Proofs.InvarianceGreedyP Proofs.InvarianceKnapsackP Proofs.InvarianceMesP
+  Proofs.InvarianceMesScaleP.
 Open Scope Q_scope.
 
 (* ================================ sequential Phragmen ================================ *)
@@ -109,10 +112,104 @@ Theorem C13_greedy_scale : forall k j I sat sat' sp sp' tb tb' additive init,
 Proof. exact greedy_scale. Qed.
 Print Assumptions C13_greedy_scale.
 
+(* ================================= welfare maximiser ================================= *)
+(* PRIMAL_DUAL scheme.  The selected set may differ between optimal solutions; the welfare attained may not. *)
+
+(* iteration order of the instance (hash seed, insertion order) *)
+Theorem C13_knapsack_enum_indep : forall I score e1 e2 init,
+  Forall (fun c => 0 <= c) (costs I) -> Forall (fun s => 0 <= s) score ->
+  NoDup e1 -> NoDup e2 -> (forall p, In p e1 <-> (p < nproj I)%nat) -> (forall p, In p e2 <-> (p < nproj I)%nat) ->
+  NoDup init -> incl init e1 -> tcost I init <= budget I ->
+  exists r1 r2, maxwelfare_pd I score e1 init = Some r1 /\ maxwelfare_pd I score e2 init = Some r2 /\
+    welfare score r2 == welfare score r1.
+Proof. exact knapsack_enum_indep. Qed.
+Print Assumptions C13_knapsack_enum_indep.
+
+(* voters in another order: the per-project totals are sums over the voters, equal up to == *)
+Theorem C13_knapsack_perm_voters : forall I score score' enum init,
+  (forall p, nth p score' 0 == nth p score 0) ->
+  Forall (fun c => 0 <= c) (costs I) -> Forall (fun s => 0 <= s) score -> Forall (fun s => 0 <= s) score' ->
+  NoDup enum -> (forall p, In p enum <-> (p < nproj I)%nat) ->
+  NoDup init -> incl init enum -> tcost I init <= budget I ->
+  exists r1 r2, maxwelfare_pd I score enum init = Some r1 /\ maxwelfare_pd I score' enum init = Some r2 /\
+    welfare score' r2 == welfare score r1.
+Proof. exact knapsack_perm_voters. Qed.
+Print Assumptions C13_knapsack_perm_voters.
+
+(* costs and budget times k, satisfactions times j: the optimum welfare is multiplied by j *)
+Theorem C13_knapsack_scale : forall k j I score enum init, 0 < k -> 0 < j ->
+  Forall (fun c => 0 <= c) (costs I) -> Forall (fun s => 0 <= s) score ->
+  NoDup enum -> (forall p, In p enum <-> (p < nproj I)%nat) ->
+  NoDup init -> incl init enum -> tcost I init <= budget I ->
+  exists r1 r2, maxwelfare_pd I score enum init = Some r1 /\
+    maxwelfare_pd (scale_inst k I) (map (Qmult j) score) enum init = Some r2 /\
+    welfare (map (Qmult j) score) r2 == j * welfare score r1.
+Proof. exact knapsack_scale. Qed.
+Print Assumptions C13_knapsack_scale.
+
+(* =================================== Equal Shares =================================== *)
+
+(* M mes_scale: costs and budget times k > 0, every utility times j > 0 (j = k: Cost_Sat, Effort_Sat; j = 1:
+   cost-independent measures), tie-breaking keys ordered alike: same allocation, in the same order of purchase
+   (resolute), the same list of allocations (irresolute), also through the budget-increase loop when the
+   increment is scaled like money *)
+Theorem C13_mes_scale : forall k j tb' x, 0 < k -> 0 < j ->
+  (forall p q, Qleb (mi_tb x p) (mi_tb x q) = Qleb (tb' p) (tb' q)) ->
+  option_map o_alloc (mes_resolute (scale_mes k j tb' x)) = option_map o_alloc (mes_resolute x)
+  /\ mes_irresolute (scale_mes k j tb' x) = mes_irresolute x.
+Proof.
+  exact (fun k j tb' x Hk Hj Htb => conj (mes_scale_res k j tb' x Hk Hj Htb) (mes_scale_irr k j tb' x Hk Hj Htb)).
+Qed.
+Print Assumptions C13_mes_scale.
+
+Theorem C13_mes_scale_iterated : forall k j tb' x fuel inc inc', 0 < k -> 0 < j ->
+  (forall p q, Qleb (mi_tb x p) (mi_tb x q) = Qleb (tb' p) (tb' q)) -> inc' == k * inc ->
+  option_map o_alloc (mes_iter_resolute fuel (scale_mes k j tb' x) inc')
+  = option_map o_alloc (mes_iter_resolute fuel x inc)
+  /\ mes_iter_irresolute fuel (scale_mes k j tb' x) inc' = mes_iter_irresolute fuel x inc.
+Proof.
+  exact (fun k j tb' x fuel inc inc' Hk Hj Htb Hinc =>
+           conj (mes_scale_iter k j tb' x Hk Hj Htb fuel inc inc' Hinc)
+                (mes_scale_iter_irr k j tb' x Hk Hj Htb fuel inc inc' Hinc)).
+Qed.
+Print Assumptions C13_mes_scale_iterated.
+
+(* towards mes_enum_indep -- the content of repair R6: the order in which the scan collected the tied projects
+   (set-iteration order within equal cached affordabilities) does not reach the choice *)
+Theorem C13_mes_enum_indep_partial : forall tb tied tied',
+  NoDup (map mp_id tied) -> Permutation tied tied' -> pick_order tb tied = pick_order tb tied'.
+Proof. exact mes_pick_order_indep. Qed.
+Print Assumptions C13_mes_enum_indep_partial.
+
+(* ... and the run starts from the same pool of priced projects and the same zero-cost projects, as sets *)
+Theorem C13_mes_enum_indep_partial_start : forall P costs bin e1 e2, Permutation e1 e2 ->
+  Permutation (fst (mk_projects P costs bin e1)) (fst (mk_projects P costs bin e2))
+  /\ Permutation (snd (mk_projects P costs bin e1)) (snd (mk_projects P costs bin e2)).
+Proof. exact (fun P costs bin e1 e2 H => conj (mes_pool_enum P costs bin e1 e2 H) (mes_zero_cost_enum P costs bin e1 e2 H)). Qed.
+Print Assumptions C13_mes_enum_indep_partial_start.
+
+(* the code BEFORE R6 (no name-sort in front of the stable tie-breaking sort): two enumerations of the same
+   six projects give different winners *)
+Theorem C13_mes_enum_dep_refuted :
+  exists e1 e2, Permutation e1 e2 /\ NoDup e1 /\
+    option_map sort_alloc (mes_resolute_old (mes_witness e1))
+    <> option_map sort_alloc (mes_resolute_old (mes_witness e2)).
+Proof. exact mes_old_enum_dep. Qed.
+Print Assumptions C13_mes_enum_dep_refuted.
+
 (* ====================================== oracle ====================================== *)
-Theorem C13_oracle_set_eqb : forall W1 W2, set_eqb W1 W2 = true <-> canon W1 = canon W2.
-Proof. exact (fun W1 W2 => list_eqb_nat_eq (canon W1) (canon W2)). Qed.
-Print Assumptions C13_oracle_set_eqb.
+(* what the case files decide: two recorded outcomes are "equal" iff they are the same SET of projects and
+   the same (rational) welfare value *)
+Theorem C13_oracle_outv_eqb : forall a b,
+  outv_eqb a b = true <-> canon (o_set a) = canon (o_set b) /\ o_val a == o_val b.
+Proof.
+  exact (fun a b => conj
+    (fun H => match proj1 (andb_true_iff _ _) H with
+              | conj H1 H2 => conj (proj1 (list_eqb_nat_eq _ _) H1) (proj1 (Qeqb_iff _ _) H2) end)
+    (fun H => match H with
+              | conj H1 H2 => proj2 (andb_true_iff _ _) (conj (proj2 (list_eqb_nat_eq _ _) H1) (proj2 (Qeqb_iff _ _) H2)) end)).
+Qed.
+Print Assumptions C13_oracle_outv_eqb.
 
 (* non-vacuity: the hypotheses are satisfiable and the conclusions are about runs that select something *)
 Example C13_nonvacuous :
@@ -124,18 +221,20 @@ Example C13_nonvacuous :
      = Some [4; 5]%nat.
 Proof. repeat split; vm_compute; reflexivity. Qed.
 
-(* UNPROVED  (DESIGN.md section 4, C13, still to do)
+(* UNPROVED  (M theorems of DESIGN.md section 4, C13, that are NOT proved)
 
-   Equal Shares (Model/MesRule.v):
-     mes_enum_indep   : forall x e2, Permutation (mi_enum x) e2 ->
-                          option_map (fun o => canon (o_alloc o)) (mes_resolute x)
-                          = option_map (fun o => canon (o_alloc o)) (mes_resolute (with_enum x e2))
-       (the scan visits the pool in the stable order of the cached affordabilities, so equal cached values are
-        visited in enumeration order; needs the laziness invariant "cached <= true affordability" of
-        Proofs/MesLazy.v to show that the set of tied projects and the patched pool do not depend on it)
-     mes_perm_voters  : Permutation of mi_voters => same selected set
-     mes_scale        : costs, budget x k, utilities x j => same selected set
-
-   Welfare maximiser (Model/MaxWelfare.v):
-     knapsack_scale   : the optimum welfare of the scaled election is j x the optimum welfare
+   Equal Shares (Model/MesRule.v), whole runs:
+     Theorem mes_enum_indep : forall x e2, Permutation (mi_enum x) e2 ->
+       option_map (fun o => canon (o_alloc o)) (mes_resolute (with_enum x e2))
+       = option_map (fun o => canon (o_alloc o)) (mes_resolute x).
+       The scan visits the pool in the stable order of the CACHED affordabilities, so projects with equal
+       cached values are visited in enumeration order and the `break` can fall between them.  The result is
+       independent of that order only because a cached value is a lower bound of the current one
+       (Proofs/MesLazy.v [cache_lb]); its preservation from round to round is not proved yet (also open in
+       Props/C02.v), and the pools of two runs agree only up to projects that have become unaffordable.
+       Proved towards it: C13_mes_enum_indep_partial, C13_mes_enum_indep_partial_start, and the refutation
+       for the pre-R6 code.
+     Theorem mes_perm_voters : Permutation (mi_voters x) P' -> same canon (o_alloc).
+       (supporter indices are positions in the voter list and the stable supporter sort breaks equal
+        budget/utility ratios by position; needs the semantic characterisation of the sweep, C02_sweep_perm)
 *)
